@@ -63,27 +63,10 @@ Blocked(p) == ~Finished(p) /\ pc[p] = "parked" /\ fnote[p] = "none"
 SeqRemove(s, x) == SelectSeq(s, LAMBDA y : y # x)
 
 (* ---------------------------------------------------------------- linearisability monitor ---- *)
-StIdle == [st |-> "idle", r |-> RUnit]
-StInv == [st |-> "inv", r |-> RUnit]
 AOp(o) == IF o.op = "recvc" THEN [o EXCEPT !.op = "recv"] ELSE o        \* the A-level operation
 \* configurations reachable from c by letting process p's pending operation take (one step of) its effect
 LinSteps(c, p, weak) ==
-  LET o == AOp(Prog[p][ip[p]])
-      s == c.ps[p]
-      strict == IF s.st = "inv" /\ OpEnabled(c.S, o)
-                THEN {[S |-> OpNext(c.S, o), ps |-> [c.ps EXCEPT ![p] = [st |-> "done", r |-> OpRes(c.S, o)]]]}
-                ELSE {}
-      wsend == IF weak /\ o.op = "send"
-               THEN (IF s.st = "inv" /\ ~c.S.closed THEN {[c EXCEPT !.ps[p] = [st |-> "mid", r |-> RUnit]]} ELSE {})
-                    \cup (IF s.st = "mid" THEN {[S |-> [c.S EXCEPT !.q = Append(@, o.m)], ps |-> [c.ps EXCEPT ![p] = [st |-> "done", r |-> ROk]]]} ELSE {})
-               ELSE {}
-      wrecv == IF weak /\ o.op = "recv"
-               THEN (IF s.st = "inv" /\ c.S.q = <<>> THEN {[c EXCEPT !.ps[p] = [st |-> "mid", r |-> RUnit]]} ELSE {})
-                    \cup (IF s.st = "mid" /\ c.S.closed THEN {[c EXCEPT !.ps[p] = [st |-> "done", r |-> RClosed]]} ELSE {})
-                    \cup (IF s.st = "mid" /\ OpEnabled(c.S, o)          \* the loop went round: a plain recv again
-                          THEN {[S |-> OpNext(c.S, o), ps |-> [c.ps EXCEPT ![p] = [st |-> "done", r |-> OpRes(c.S, o)]]]} ELSE {})
-               ELSE {}
-  IN strict \cup wsend \cup wrecv
+  {[S |-> x.S, ps |-> [c.ps EXCEPT ![p] = x.s]] : x \in LinSucc(c.S, c.ps[p], AOp(Prog[p][ip[p]]), weak, weak)}
 RECURSIVE Closure(_, _)
 Closure(L, weak) ==
   LET new == UNION {UNION {LinSteps(c, p, weak) : p \in {x \in Procs : c.ps[x].st \in {"inv", "mid"}}} : c \in L} \ L
